@@ -209,8 +209,9 @@ Definition fx_colored : prog :=
 Definition print_fixedstruct_ : prog := [W buf; F].
 Definition print_fixedstruct_prependdate : prog := [W df; W buf; F].
 Definition print_fixedstruct_prependfile : prog := [W ff; W buf; F].
-(* sic: the datetime is written BEFORE the file name in this one variant *)
-Definition print_fixedstruct_prependfile_prependdate : prog := [W df; W ff; W buf; F].
+(* file name, then datetime (repaired by /repo commit e7fb2a14; before it the datetime was written first,
+   see Proofs/PrintVariants.v old_print_fixedstruct_prependfile_prependdate) *)
+Definition print_fixedstruct_prependfile_prependdate : prog := [W ff; W df; W buf; F].
 Definition print_fixedstruct_color : prog := fx_colored.
 Definition print_fixedstruct_prependdate_color : prog := [C CDefault; W df; F] ++ fx_colored.
 Definition print_fixedstruct_prependfile_color : prog := [C CDefault; W ff; F] ++ fx_colored.
@@ -339,10 +340,6 @@ Definition wf_msg (m : msg) : Prop :=
   | KFixed => exists l, m_lines m = [l]
   | KEvtx | KJournal => nl_split [] (m_data m) = flat_lines m
   end.
-
-(* the one dispatch that does not follow the canonical order (finding F11) *)
-Definition f11_class (o : popts) (m : msg) : bool :=
-  match m_kind m with KFixed => negb (o_colour o) && o_file o && o_date o | _ => false end.
 
 (* ---------------------------------------------------------------- concrete bytes, SGR stripping *)
 Definition concr (g : cls -> bytes) (os : list out) : bytes :=
